@@ -71,7 +71,7 @@ pub fn judge_text(text: &str) -> Judged {
         }
         Ok(Ok(l)) => l,
     };
-    let (p1, p2) = (nt::library(&l1), nt::library(&l2));
+    let (p1, p2) = (nt::library_exact(&l1), nt::library_exact(&l2));
     if p1 != p2 {
         let d = nt::diff(&p1, &p2);
         for x in &d {
